@@ -292,6 +292,80 @@ func runC07(c *Ctx) {
 		dirtyMarkSurvives(c, "C07.4-hash-freshness", p.Func(ldPkg+":(*hashRanges).addElement"))
 		dirtyMarkSurvives(c, "C07.4-hash-freshness", p.Func(ldPkg+":(*hashRanges).removeElement"))
 	}
+
+	// ---- C07.5 an absent hash proves nothing: compareResults may return without comparing or
+	// descending ("ranges are equal") only when a hash is present. getRange leaves Hash nil both
+	// for an empty indexed range and for a range that is not in the index (elements listed
+	// instead), so nil == nil must not count as equality (finding F18).
+	{
+		rule := "C07.5-absent-hash-proves-nothing"
+		cr := p.Func(ldPkg + ":(*diff).compareResults")
+		c.Fn(FuncName(cr))
+		hashF := p.Field(ldPkg + ":RangeResult.Hash")
+		prepareF := p.Field(ldPkg + ":diffCtx.prepare")
+		cmpF := p.Field(ldPkg + ":diffCtx.compareFunc")
+		present := GCmp("a RangeResult.Hash is present (len != 0 / != nil)", func(a Atom) (bool, bool) {
+			if a.Op != token.NEQ && a.Op != token.EQL && a.Op != token.GTR {
+				return false, false
+			}
+			if IsLenOfField(a.X, hashF) {
+				if k, ok := IntConst(a.Y); ok && k == 0 {
+					return true, a.Op != token.EQL
+				}
+			}
+			if IsNilConst(a.Y) && IsLoadOfField(a.X, hashF) && a.Op != token.GTR {
+				return true, a.Op == token.NEQ
+			}
+			return false, false
+		})
+		isWork := func(in ssa.Instruction) bool {
+			switch x := in.(type) {
+			case *ssa.Store:
+				if fa, ok := x.Addr.(*ssa.FieldAddr); ok && FieldOf(fa) == prepareF {
+					return true
+				}
+			case *ssa.Call:
+				if !x.Call.IsInvoke() && IsLoadOfField(x.Call.Value, cmpF) {
+					return true
+				}
+			}
+			return false
+		}
+		nWork := 0
+		Instrs(cr, func(in ssa.Instruction) {
+			if isWork(in) {
+				nWork++
+			}
+		})
+		// entering the loop that schedules the sub-ranges counts as work: genTupleRanges returns
+		// divideFactor (>= 2, C07.2) tuples, the zero-iteration path is infeasible
+		workHeader := map[ssa.Instruction]bool{}
+		for _, l := range Loops(cr) {
+			has := false
+			for b := range l.Blocks {
+				for _, in := range b.Instrs {
+					if isWork(in) {
+						has = true
+					}
+				}
+			}
+			if has && len(l.Header.Instrs) > 0 {
+				workHeader[l.Header.Instrs[0]] = true
+			}
+		}
+		pass, sites := present.PassEdges(cr)
+		r := Reach(cr, ReachOpts{Removed: pass, Cut: func(in ssa.Instruction) bool { return isWork(in) || workHeader[in] }})
+		bad := ""
+		for _, ret := range Returns(cr) {
+			if r.Reachable(ret) {
+				bad = "compareResults can return at " + p.Pos(InstrPos(ret)) + " without comparing elements or scheduling sub-ranges although no hash was present (witness " + r.Path(p, ret) + "): two absent hashes (empty range vs. a range that is not in the index) are taken for equal ranges and the ids one side lists are never reported"
+			}
+		}
+		if nWork < 3 {
+			bad = fmt.Sprintf("compareResults contains only %d compare/descend sites (rule table out of date)", nWork)
+		}
+		c.Check(bad == "", rule, FuncName(cr)+"|do-nothing return requires a present hash", p.Pos(cr.Pos()), orDefault(bad, fmt.Sprintf("every return that neither compares nor descends crosses one of %d hash-presence test(s)", len(sites))))
+	}
 }
 
 // lowerBounded: v >= min by construction: a constant >= min, or a phi of such
